@@ -321,6 +321,20 @@ def wide_shard(spec, res, rng):
     from vf.ref import bvsem
     from vf.ref import sigamma as G
 
+    # machine-word widths and just below, small ranges around zero (wrapping) against small constants: quotients whose
+    # pieces have bounds that differ by multiples of large powers of two
+    for w in (61, 62, 63, 64, 32, 33):
+        for _ in range(6 if spec["n"] < 1000 else 40):
+            lo, hi = rng.randrange(1, 17), rng.randrange(0, 17)
+            ta = (w, 1, (1 << w) - lo, hi, False, False)
+            dv = rng.choice([1, 1, 2, 4, 8, 3])
+            tb = (w, 0, dv, dv, False, False)
+            ga = sorted({((1 << w) - lo + j) & bvsem.mask(w) for j in range(lo + hi + 1)})
+            for op in ("udiv", "sdiv", "mod", "lshr", "and"):
+                if op in V.BIN:
+                    note_case(res, op, (ta, tb))
+                    do_binary(res, op, ta, tb, ga, [dv], w, "wide")
+                    res.count("word_width_wrapping_cases")
     for i in range(spec["n"]):
         w = rng.choice([8, 8, 16, 32, 64])
         ta, tb = rand_si(rng, w), rand_si(rng, w)
